@@ -27,7 +27,12 @@ CONSTANTS Proc,          \* command processes
           AllowCrash,    \* a running command may stop between any two of its steps
           AllowEarly,    \* ... and with early-delete-index (documented as unsafe, excluded by C03)
           TickInPrune,   \* FALSE: assumption A2 - no time passes while a prune runs
-          UntypedDedup   \* TRUE: model the dedup sets as sets of ids (not typed blobs)
+          UntypedDedup,  \* TRUE: model the dedup sets as sets of ids (not typed blobs)
+          DeriveFrom,    \* [Version -> SUBSET Version]: versions that are not backed up from a source but derived from
+                         \* snapshots already in the repository (merge, rewrite, repair-snapshots): only trees are written
+          DeriveForget,  \* a deriving command removes its source snapshots afterwards (rewrite --forget, repair --delete)
+          SnapFirst      \* TRUE: the derived snapshot is saved BEFORE its trees are flushed (repair-snapshots before fix
+                         \* 23166c4) - kept to show that AllReadable then fails at a crash point
 
 VARIABLES packs, idx, snaps, now, nextp, nexti, ncmd, loc, hist
 
@@ -63,7 +68,8 @@ Overlap(l, p) == [q \in Proc |-> IF q # p /\ "clean" \in DOMAIN l[q] THEN [l[q] 
 
 BStart(p, v) ==
   /\ CanStart(p) /\ p \in BackupProcs
-  /\ loc' = Overlap([loc EXCEPT ![p] = [pc |-> "b_load", v |-> v, view |-> {}, up |-> {}, pend |-> {}, start |-> now]], p)
+  /\ DeriveFrom[v] = {}
+  /\ loc' = Overlap([loc EXCEPT ![p] = [pc |-> "b_load", v |-> v, view |-> {}, up |-> {}, pend |-> {}, start |-> now, derive |-> FALSE]], p)
   /\ ncmd' = ncmd + 1
   /\ hist' = Append(hist, <<"backup", v>>)
   /\ UNCHANGED <<packs, idx, snaps, now, nextp, nexti>>
@@ -76,7 +82,9 @@ BLoad(p) ==
                         ![p].start = now]
   /\ UNCHANGED <<packs, idx, snaps, now, nextp, nexti, ncmd, hist>>
 
-Missing(p) == {b \in Needs[loc[p].v] : Key(b) \notin loc[p].view /\ Key(b) \notin Keys(loc[p].up)}
+\* a deriving command writes trees only: the data blobs it references are those of its sources
+Missing(p) == {b \in Needs[loc[p].v] : /\ Key(b) \notin loc[p].view /\ Key(b) \notin Keys(loc[p].up)
+                                       /\ (loc[p].derive => b[1] = "tree")}
 
 BPack(p) ==
   /\ loc[p].pc = "b_pack"
@@ -103,6 +111,30 @@ BSnap(p) ==
   /\ loc[p].pc = "b_snap"
   /\ now < loc[p].start + KD \/ ~Concurrent
   /\ snaps' = Put(snaps, loc[p].v, Needs[loc[p].v])
+  /\ loc' = [loc EXCEPT ![p] = IF loc[p].derive /\ DeriveForget /\ ~AppendOnly THEN [pc |-> "d_forget", v |-> loc[p].v] ELSE Idle]
+  /\ UNCHANGED <<packs, idx, now, nextp, nexti, ncmd, hist>>
+
+-----------------------------------------------------------------------------
+(* merge / rewrite / repair-snapshots: a snapshot derived from snapshots of the repository *)
+
+DStart(p, v) ==
+  /\ CanStart(p) /\ p \in BackupProcs
+  /\ DeriveFrom[v] # {} /\ DeriveFrom[v] \subseteq DOMAIN snaps /\ v \notin DOMAIN snaps
+  /\ loc' = Overlap([loc EXCEPT ![p] = [pc |-> "b_load", v |-> v, view |-> {}, up |-> {}, pend |-> {}, start |-> now, derive |-> TRUE]], p)
+  /\ ncmd' = ncmd + 1
+  /\ hist' = Append(hist, <<"derive", v>>)
+  /\ UNCHANGED <<packs, idx, snaps, now, nextp, nexti>>
+
+\* the unsafe order: snapshot first
+DSnapFirst(p) ==
+  /\ SnapFirst /\ loc[p].pc = "b_pack" /\ loc[p].derive /\ loc[p].v \notin DOMAIN snaps
+  /\ snaps' = Put(snaps, loc[p].v, Needs[loc[p].v])
+  /\ UNCHANGED <<packs, idx, now, nextp, nexti, ncmd, loc, hist>>
+
+\* the sources are removed only after the derived snapshot is visible
+DForget(p) ==
+  /\ loc[p].pc = "d_forget"
+  /\ snaps' = [s \in DOMAIN snaps \ DeriveFrom[loc[p].v] |-> snaps[s]]
   /\ loc' = [loc EXCEPT ![p] = Idle]
   /\ UNCHANGED <<packs, idx, now, nextp, nexti, ncmd, hist>>
 
@@ -327,6 +359,8 @@ Tick ==
 Step(p) ==
   \/ \E v \in Version : BStart(p, v)
   \/ BLoad(p) \/ BPack(p) \/ BFlush(p) \/ BSnap(p)
+  \/ \E v \in Version : DStart(p, v)
+  \/ DSnapFirst(p) \/ DForget(p)
   \/ \E s \in Version : Forget(p, s)
   \/ \E i, e \in BOOLEAN : PStart(p, i, e)
   \/ PReadIndex(p) \/ PReadSnaps(p) \/ PDecide(p) \/ PRmUnref(p) \/ PRmIdxEarly(p) \/ PRepack(p)
